@@ -26,7 +26,7 @@ sec = f"""
 
 ## 12. Seeded changes and which checks catch them
 
-{len(rows)} property-breaking changes were written in eight batches by independent sub-agents that saw only the text of
+{len(rows)} property-breaking changes were written in nine batches by independent sub-agents that saw only the text of
 one property and a scratch worktree (nothing from /verif): batch 1 (ids `CnnA`, `CnnB`, all 20 properties, against the
 tree with fixes F1-F15), batch 2 (`CnnC`, `CnnD` for 12 schedule / negotiation properties, against the tree with F1-F24),
 batch 3 (`CnnC`, `CnnD` for the remaining 8, against F1-F26), batch 4 (`CnnE`, `CnnF` for the 8 schedule properties,
@@ -36,7 +36,9 @@ error / rare paths, changes outside the obvious function, interactions of two fe
 20: value-dependent at boundaries, state leaking between instances, order, stale state used by the next exchange, type /
 unit confusion) and batch 8 (`CnnO`, `CnnP` for all 20: rarely used option combinations, the state left behind by a
 failed exchange, second occurrences, role asymmetry, changes after which two pyikev2 peers still agree with each other
-but not with RFC 7296).  Each was confirmed in a scratch worktree (patch applies
+but not with RFC 7296) and batch 9 (`CnnQ`, one each for C02, C03, C08, C09, C10, C12, C13, C15, C16, C17, against the
+tree with F1-F28; the brief listed the changes already known for the property and asked for a different site or trigger;
+all ten were caught by the quick tier as it stood, C16Q by C10 rather than C16).  Each was confirmed in a scratch worktree (patch applies
 on its own, the 176-test baseline still passes, its demonstration exits 0 without and 1 with the change;
 `tools/confirm_seed2.sh`) and is kept as `seeded/<id>/{{patch.diff, demo.py, notes.md, meta.json}}`.
 `tools/run_seeded.py` applies each to a scratch worktree of /repo's HEAD, points the **quick** tier of its property's
